@@ -131,6 +131,23 @@ def run():
         ok &= expect_violation("N2Hist RuleBug=%s" % b, "N2Hist.tla", "MC_Hist_bug_%s.cfg" % b, inv)
     ok &= expect_violation("N2Hist RuleBug=noreload", "N2Hist.tla", "MC_Hist_bug_noreload.cfg", "C02")
     ok &= expect_violation("N2Log Recovery=asis", "N2Log.tla", "MC_Log_asis.cfg", "AlwaysLoadable")
+    # the Apalache check must object when the arithmetic of BuildStates::set is wrong
+    ad = os.path.join(D.WORK, "selftest-apalache-%d" % os.getpid())
+    shutil.rmtree(ad, ignore_errors=True); os.makedirs(ad)
+    core = open(os.path.join(D.SPEC, "SchedCore.tla")).read()
+    bug = core.replace("- Cardinality({s \\in DOMAIN new : s \\notin phony /\\ iv.st[s] = x})",
+                       "- Cardinality({s \\in DOMAIN new : iv.st[s] = x})")
+    assert bug != core
+    open(os.path.join(ad, "SchedCore.tla"), "w").write(bug)
+    for f in ("SchedInd.tla", "SchedIndMC4.tla"):
+        shutil.copy(os.path.join(D.SPEC, "apalache", f), os.path.join(ad, f))
+    p = subprocess.run(["timeout", "900", "apalache-mc", "check", "--init=IndInit", "--length=1", "--next=Next",
+                        "--inv=IndInv", "--cinit=CInit", "--out-dir=" + ad + "/out", "SchedIndMC4.tla"], cwd=ad,
+                       stdout=subprocess.PIPE, stderr=subprocess.STDOUT, text=True)
+    found = "The outcome is: Error" in p.stdout and "invariant" in p.stdout
+    print("%-34s %s" % ("SchedCore: phony steps uncounted", "counterexample found by Apalache, as required" if found else "NO COUNTEREXAMPLE"))
+    ok &= found
+    shutil.rmtree(ad, ignore_errors=True)
     print("== binding of the trace specification")
     D.build_harness()
     import sys
